@@ -76,6 +76,26 @@ def main():
 
     _xcore._PATCH_REGISTRATIONS[_lru_cache_wrapper.__call__] = _call_lru
 
+    # CrossHair 0.0.110's model of list.index(value, start[, stop]) slices the list and returns the index relative
+    # to the slice (["a".."f"].index("f", 4) == 1).  Replace it with a correct model (found when the repaired
+    # setup.cfg writer, which calls list.index(value, start), misbehaved only under the tracer).
+    from crosshair.tracers import ResumedTracing as _Resumed
+
+    def _list_index_fixed(self, value, *bounds):
+        with _NoTracing():
+            if not isinstance(self, list):
+                raise TypeError
+            n = len(self)
+            rng = range(n)[slice(bounds[0], bounds[1] if len(bounds) > 1 else None)] if bounds else range(n)
+            for idx in rng:
+                with _Resumed():
+                    isequal = value == self[idx]
+                if isequal:
+                    return idx
+            raise ValueError
+
+    _xcore._PATCH_REGISTRATIONS[list.index] = _list_index_fixed
+
     t_imp = time.perf_counter()
     mod = importlib.import_module(mod_name)
     fn = getattr(mod, fn_name)
